@@ -275,8 +275,13 @@ struct InclEngine : Engine {
 			Json o = Json::object();
 			std::string top = paths[dag ? w.below((uint64_t)std::min(nfiles, 2)) : w.below((uint64_t)nfiles)];
 			o["top"] = top;
-			unsigned k = (unsigned)w.below(10);
-			if (k < 6) {
+			unsigned k = (unsigned)w.below(11);
+			if (k == 10) {
+				// the command line tool on a file argument: exercises realpath/dirname and the -o path of main.c
+				o["k"] = "CLI"; o["fmt"] = FMT_MMD;
+				std::string tdir = top.substr(0, top.rfind('/'));
+				o["search"] = tdir; o["src"] = top;
+			} else if (k < 6) {
 				o["k"] = "TRANSCLUDE"; o["fmt"] = i == 0 ? fmt : (w.chance(1, 2) ? fmt : gen_text_format(w));
 				o["search"] = w.chance(1, 6) ? "/sim/w/" : "/sim/w";
 				o["src"] = top;
@@ -351,6 +356,43 @@ struct InclEngine : Engine {
 			g_sim.fopen_cap = (uint64_t)plan.at("cap").geti("opens"); g_sim.bytes_cap = (uint64_t)plan.at("cap").geti("bytes");
 			Json o = Json::object();
 			o["k"] = kind;
+			if (kind == "CLI") {
+				// multimarkdown -t mmd -o <dir>/__out.txt <top>   (the pool bracket of this engine is left and re-entered: the CLI runs its own)
+				std::string outp = top.substr(0, top.rfind('/')) + "/__out.txt";
+				std::vector<std::string> args = {"multimarkdown", "-t", "mmd", "-o", outp, top};
+				std::vector<char *> argv; for (auto & a2 : args) argv.push_back(&a2[0]); argv.push_back(nullptr);
+				int rc = IN_LIB(mmd_cli_main((int)args.size(), argv.data()));
+				auto it = g_sim.files.find(outp);
+				std::string got = it == g_sim.files.end() ? std::string() : it->second.written;
+				bool wrote = it != g_sim.files.end();
+				if (wrote) g_sim.files.erase(it);
+				std::vector<OpenRecord> tape;
+				for (auto & r : g_sim.open_log) if (r.path != outp) tape.push_back(r);
+				o["rc"] = rc; o["opens"] = (int64_t)tape.size();
+				if (!tape.empty() && tape[0].ok) {
+					Ref ref; ref.tape = &tape; ref.cursor = 1; ref.fmt = FMT_MMD;
+					std::vector<std::string> anc;
+					g_sim.fopen_cap = 0; g_sim.bytes_cap = 0;
+					std::string toptext = strip_bom(tape[0].delivered);
+					std::string want = ref.T(toptext, search, src, anc, 0);
+					if (ref.mismatch.empty() && ref.cursor != tape.size()) ref.mismatch = "library made " + std::to_string(tape.size() - ref.cursor) + " more open(s) than the model, first extra: " + tape[ref.cursor].path;
+					if (ref.cyclic) { any_cycle = true; probes["guard_hit"]++; }
+					if (!ref.cyclic && viol.is_null()) {
+						if (!ref.mismatch.empty()) { viol = Json::object(); viol["clause"] = "open_sequence_differs"; viol["class"] = kind; viol["detail"] = ref.mismatch; viol["op"] = (int64_t)k; }
+						else if (!wrote || got != as_cstr(want)) {
+							size_t at = 0; while (at < got.size() && at < want.size() && got[at] == want[at]) at++;
+							viol = Json::object(); viol["clause"] = "substitution_differs"; viol["class"] = kind; viol["op"] = (int64_t)k;
+							viol["detail"] = std::string(wrote ? "" : "no output file written; ") + "first difference at byte " + std::to_string(at) + ": CLI " + Json(got.substr(at, 40)).dump() + " model " + Json(want.substr(at, 40)).dump();
+						}
+					}
+					probes["cli_runs"]++;
+				}
+				o["out"] = digest(got);
+				g_log.ev("op", kind + ":" + o.gets("out"));
+				st.insert(kind + "/o" + std::to_string(std::min<size_t>(tape.size(), 12)));
+				outs.push(o); executed++;
+				continue;
+			}
 			// the caller reads the top file itself
 			DString * topbuf = IN_LIB(scan_file(top.c_str()));
 			if (!topbuf) { o["skipped"] = "top file cannot be opened"; outs.push(o); executed++; continue; }
